@@ -48,7 +48,8 @@ def grid(rng, m, variant=0):
     base = np.arange(m) / 8.0
     if variant == 1:
         base = base.copy()
-        base[-1] += 1 / 16.0
+        # a visible difference, or one of a few units in the last places: any difference makes the sampling points differ
+        base[-1] += 1 / 16.0 if rng.uniform() < 0.5 else 2.0 ** -24
     elif variant == 2:
         base = np.sort(np.unique(np.round(rng.uniform(0, 4, size=4 * m) * 32) / 32))[:m]
         if len(base) < m:
@@ -488,6 +489,9 @@ def multi_curve(rng, case):
             return a
 
 
+_LATE = [0]
+
+
 def late_grid(a):
     """Copy of `a` (same values, same numbers of points) whose sampling points differ ONLY in the last curve
     (irregular) / the last dimension (dense)."""
@@ -496,7 +500,8 @@ def late_grid(a):
         g = list(b.argvals.values())[-1]
     else:
         g = list(b.argvals[list(b.argvals.keys())[-1]].values())[-1]
-    g[-1] += 1 / 16.0
+    _LATE[0] += 1
+    g[-1] += 1 / 16.0 if _LATE[0] % 2 else 2.0 ** -24
     return b
 
 
